@@ -189,6 +189,9 @@ func genChain(rng *rand.Rand, n int, large bool) []state {
 
 type childArgs struct {
 	Chain []state `json:"chain"`
+	// Symlink: the configuration path is a symbolic link to the file in a sub-directory (dotfiles
+	// checkouts, /etc/... -> /data/... set-ups)
+	Symlink bool `json:"symlink,omitempty"`
 }
 
 type childOut struct {
@@ -257,8 +260,20 @@ func runChild(raw json.RawMessage) (any, error) {
 	}
 	// the initial file: hand-written (as a user would) when there is no identity
 	// yet, otherwise written by the client itself from a minimal file
-	if err := os.WriteFile(path, []byte(bootstrapYAML(a.Chain[0])), 0o644); err != nil {
+	first := path
+	if a.Symlink {
+		if err := os.Mkdir(filepath.Join(root, "real"), 0o755); err != nil {
+			return nil, err
+		}
+		first = filepath.Join(root, "real", cfgName)
+	}
+	if err := os.WriteFile(first, []byte(bootstrapYAML(a.Chain[0])), 0o644); err != nil {
 		return nil, err
+	}
+	if a.Symlink {
+		if err := os.Symlink(filepath.Join("real", cfgName), path); err != nil {
+			return nil, err
+		}
 	}
 	cfg, err := client.NewConfig(path)
 	if err != nil {
@@ -321,7 +336,7 @@ func runChain(r *ev.Run, ci int, chain []state, onlySave, onlyK int) {
 	caseBase := fmt.Sprintf("c%d", ci)
 	logPath := filepath.Join(child.WorkDir(), "c45-"+caseBase+".strace")
 	defer os.Remove(logPath)
-	res := child.Run("c45save", childArgs{Chain: chain}, child.Opt{Wrap: crashimg.Wrap(logPath), Timeout: 5 * time.Minute})
+	res := child.Run("c45save", childArgs{Chain: chain, Symlink: ci%3 == 1}, child.Opt{Wrap: crashimg.Wrap(logPath), Timeout: 5 * time.Minute})
 	defer res.Cleanup()
 	if res.TimedOut {
 		r.Inconclusive(caseBase + ": traced child hit the watchdog")
@@ -512,7 +527,7 @@ func main() {
 	child.Register("c45save", runChild)
 	child.Main()
 	r := ev.Start("C45", "fault_enumeration")
-	r.SetRule("seeded chains of configuration saves as the client performs them (register, renew certificate, grow/replace tunnels, remove a tunnel, change apex; small and 20-200-tunnel configurations so that yaml.v3's 128-byte buffer flushes in 10..300 writes) run through (*Config).writeFile under strace; EVERY file-operation boundary of every save is one crash image read back with client.NewConfig; a case is distinct by (kind of change, last completed file operation, verdict, bucket of the boundary index)")
+	r.SetRule("seeded chains of configuration saves as the client performs them (register, renew certificate, grow/replace tunnels, remove a tunnel, change apex; small and 20-200-tunnel configurations so that yaml.v3's 128-byte buffer flushes in 10..300 writes) run through (*Config).writeFile under strace; EVERY file-operation boundary of every save is one crash image read back with client.NewConfig; a case is distinct by (kind of change, last completed file operation, verdict, bucket of the boundary index); in every third chain the configuration path is a symbolic link to the file in a sub-directory (the crash-image model follows and replaces links as the kernel does)")
 	r.Assume("process-crash model: completed system calls persist and are atomic; power loss is not modelled")
 	r.Assume("only the configuration file path is judged; other files a save may leave in the directory (temporary files) are ignored")
 	r.SetMaxSamples(6)
